@@ -44,6 +44,7 @@ DEFAULT_PROFILE = {
     "raise_events": 2,
     "p_forbid": 0.0,
     "root_final": True,
+    "p_ondone_targetless": 0.0,
 }
 
 
@@ -340,7 +341,7 @@ class MachineGen:
                 has_final = any(x.kind == "final" for x in n.walk())
                 if has_final:
                     tgt, re = self.pick_target(n, nodes, root)
-                    if tgt is n:
+                    if tgt is n or rng.random() < p.get("p_ondone_targetless", 0.0):
                         tgt = None
                     c["onDone"] = self.tcfg(n, tgt, False, None, extra=False)
             if p["p_after"] and n is not root and rng.random() < p["p_after"]:
